@@ -217,10 +217,14 @@ GF("read_conference_create_response", props=["C05", "C03", "C18"],
    loops={1: """invariant blocks_ok(result.m()),
         decreases sub.rest().len()"""},
    pre="let ghost b = cc_response.rest();",
+   # refusal justification (MS-RDPBCGR 2.2.1.3.1 TS_UD_HEADER: length counts the 4 header bytes): a block is refused as too short only when the
+   # length field just read is below 4 (stated on the view of the header that was read: the loop does not track the position of the block in the input)
+   claims=[(r"return Err\(.*GCC: block length smaller than its header", 1, "proof { assert(header.fields()[1].0 == \"length\"@ && header.fields()[1].1 is U16 && header.fields()[1].1->U16_0 < 4); }", "before", "C03,C18", "block-refused-only-when-its-length-is-below-4")],
    hints=[(r"server_core\.read\(", 1, "proof { assert(server_core.fields()[0].0 == \"rdpVersion\"@); }"),
           (r"server_net\.read\(", 1, "proof { assert(server_net.fields()[2].0 == \"channelIdArray\"@); }"),
           (r"per::read_octet_stream\(", 1, "proof { assert(cc_response.rest() == ccr_at_key(b)); }", "before"),
-          (r"per::read_octet_stream\(", 1, "proof { assert(H221_SC_KEY@ =~= seq![0x4du8, 0x63u8, 0x44u8, 0x6eu8]); assert(ccr_key_ok(b)) by { reveal(ccr_key_ok); } }")],
+          (r"per::read_octet_stream\(", 1, "proof { assert(H221_SC_KEY@ =~= seq![0x4du8, 0x63u8, 0x44u8, 0x6eu8]); assert(ccr_key_ok(b)) by { reveal(ccr_key_ok); } }"),
+          (r"let block_length = cast!\(DataType::U16, header\[\"length\"\]\)\?;", 1, "proof { reveal_with_fuel(same_shape, 3); lemma_keys(); assert(ser(header.mv()).len() == 4); let f = header.fields(); assert(f.len() == 2 && f[0].0 == \"type\"@ && f[1].0 == \"length\"@ && f[1].1 is U16); assert(block_length == f[1].1->U16_0); }")],
    ensures=[("C05", "monotone", "true"),
             # T.124 / MS-RDPBCGR 2.2.1.4 (wire level, necessary conditions of acceptance): the reader walks the PER fields in the documented order and widths (ccr_at_key) and
             # accepts only the H.221 non standard key "McDn" with length determinant 0 (= 4 - the lower bound 4) behind an OBJECT IDENTIFIER of 5 content bytes
@@ -298,18 +302,32 @@ CONFIRM_HINTS = [(r"let mut confirm = trame!", 1, "proof { lemma_pdu_headers(); 
         assert(forall|k: int| 0 <= k < body.len() ==> b[1 + k] == body[k]);
     }"""),
                  (r"let mut request = Cursor::new", 1, "proof { assert(request.rest() =~= body); }")]
+# refusal justifications (T.125 AttachUserConfirm ::= [APPLICATION 11] { result, initiator }): refused only for another PDU choice / a result other than rt-successful (0)
 MF("read_attach_user_confirm", props=["C05", "C03"], fuel=4, pre=CONFIRM_PRE, hints=CONFIRM_HINTS,
+   claims=[(r"return Err\(.*unexpected header on recv_attach_user_confirm", 1, "proof { assert(old(buffer).rest().len() >= 1 && old(buffer).rest()[0] >> 2 != 11); }", "before", "C03", "refused-only-for-another-pdu-choice"),
+           (r"return Err\(.*RdpErrorKind::RejectedByServer", 1, "proof { assert(old(buffer).rest().len() >= 2 && old(buffer).rest()[0] >> 2 == 11 && old(buffer).rest()[1] != 0); }", "before", "C03", "rejected-only-when-the-result-is-not-successful")],
    ensures=[("C03", "assigned-user-id", "r is Ok ==> old(buffer).rest().len() >= 4 && old(buffer).rest()[0] >> 2 == 11 && old(buffer).rest()[1] == 0 && r->Ok_0 as int == u16_be(old(buffer).rest()[2], old(buffer).rest()[3]) as int + 1001"),
             ("C03", "at-least-1001", "r is Ok ==> r->Ok_0 >= 1001")])
 MF("attach_user_request", props=["C03", "C04"], pre="proof { lemma_pdu_headers(); }", ensures=[("C03", "byte", "r == 0x28")])
 MF("erect_domain_request", props=["C03", "C04"], fuel=6, pre="proof { lemma_pdu_headers(); }", ensures=[("C03,C04", "bytes", "r is Ok ==> ser(r->Ok_0.mv()) =~= erect_domain_bytes()")])
 MF("channel_join_request", props=["C03", "C04"], fuel=6, pre="proof { lemma_pdu_headers(); }", requires=["user_id is Some ==> user_id->Some_0 >= 1001"],
    ensures=[("C03,C04", "bytes", "r is Ok && ser(r->Ok_0.mv()) =~= channel_join_bytes((if user_id is Some { user_id->Some_0 } else { 1001u16 }), (if channel_id is Some { channel_id->Some_0 } else { 0u16 }))")])
+# refusal justifications (T.125 ChannelJoinConfirm ::= [APPLICATION 15] { result, initiator, requested, channelId }): refused only for another PDU choice,
+# or when the confirm does not repeat the user id / channel id of the request
 MF("read_channel_join_confirm", props=["C05", "C03"], fuel=4, pre=CONFIRM_PRE, hints=CONFIRM_HINTS,
+   claims=[(r"return Err\(.*unexpected header on read_channel_join_confirm", 1, "proof { assert(old(buffer).rest().len() >= 1 && old(buffer).rest()[0] >> 2 != 15); }", "before", "C03", "refused-only-for-another-pdu-choice"),
+           (r"return Err\(.*read_channel_join_confirm invalid user id", 1, "proof { assert(old(buffer).rest().len() >= 6 && user_id as int != u16_be(old(buffer).rest()[2], old(buffer).rest()[3]) as int + 1001); }", "before", "C03", "refused-only-when-the-initiator-is-not-the-requesting-user"),
+           (r"return Err\(.*read_channel_join_confirm invalid channel_id", 1, "proof { assert(old(buffer).rest().len() >= 6 && channel_id != u16_be(old(buffer).rest()[4], old(buffer).rest()[5])); }", "before", "C03", "refused-only-when-the-channel-is-not-the-requested-one")],
    ensures=[("C03", "confirms-the-requested-ids", "r is Ok ==> old(buffer).rest().len() >= 6 && old(buffer).rest()[0] >> 2 == 15 && user_id as int == u16_be(old(buffer).rest()[2], old(buffer).rest()[3]) as int + 1001 && channel_id == u16_be(old(buffer).rest()[4], old(buffer).rest()[5]) && r->Ok_0 == (old(buffer).rest()[1] == 0)")])
 MF("new", impl=r"Client<S>", props=["C03"], ensures=["r.uid() is None && r.chans() == Map::<Seq<char>, u16>::empty() && r.written() == x224.written() && r.rest() == x224.rest() && r.tls() == x224.tls()"])
 FRAME_CL = [(None, "frame", "final(self).tls() == old(self).tls() && is_prefix(old(self).written(), final(self).written()) && is_suffix(final(self).rest(), old(self).rest())")]
 MF("write_connect_initial", impl=r"Client<S>", props=["C03", "C04"], fuel=10,
+   # MS-RDPBCGR 2.2.1.3: the client data blocks CS_CORE (0xC001), CS_SECURITY (0xC002), CS_NET (0xC003), each = TS_UD_HEADER(type, 4 + |body|) ++ body,
+   # in this order, with each header's length describing ITS OWN block
+   claims=[(r"let conference = ", 1, """proof {
+            assert(user_data@ =~= le16(0xC001) + le16((ser(client_core_data.mv()).len() + 4) as u16) + ser(client_core_data.mv())
+                                + le16(0xC002) + le16((ser(client_security_data.mv()).len() + 4) as u16) + ser(client_security_data.mv())
+                                + le16(0xC003) + le16((ser(client_network_data.mv()).len() + 4) as u16) + ser(client_network_data.mv())); }""", "before", "C04,C03", "client-data-blocks-self-describing")],
    hints=[(r"let user_data = to_vec", 1, "proof { assert(ser(client_network_data.mv()).len() == 4); }", "before"),
           (r"let conference = ", 1, "proof { assert(user_data@.len() == 236); }", "before"),
           (r"self\.x224\.write\(to_der", 1, "let ghost w0 = self.x224.written();", "before")],
@@ -318,7 +336,7 @@ MF("write_connect_initial", impl=r"Client<S>", props=["C03", "C04"], fuel=10,
                        (None, "ids", "final(self).uid() == old(self).uid() && final(self).chans() == old(self).chans()")])
 MF("read_connect_response", impl=r"Client<S>", props=["C05", "C03"],
    ensures=FRAME_CL + [(None, "nothing-written", "final(self).written() == old(self).written() && final(self).uid() == old(self).uid() && final(self).chans() == old(self).chans()"),
-                       ("C03", "server-data-recorded", "r is Ok ==> final(self).server_data is Some")])
+                       ("C03,C05", "server-data-recorded", "r is Ok ==> final(self).server_data is Some")])
 MF("connect", impl=r"Client<S>", props=["C03", "C05"], requires=["old(self).uid() is None", "old(self).chans() == Map::<Seq<char>, u16>::empty()"],
    body_sub=[(r"for channel_id in self\.channel_ids\.values\(\) \{", "let __channel_ids = hashmap_values(&self.channel_ids); for channel_id in __channel_ids.iter() {")],
    nloops=1,
@@ -379,7 +397,13 @@ MF("connect", impl=r"Client<S>", props=["C03", "C05"], requires=["old(self).uid(
                                 + frame(channel_join_bytes(final(self).uid()->Some_0, c1)) + frame(channel_join_bytes(final(self).uid()->Some_0, c2))""")])
 MF("write", impl=r"Client<S>", props=["C11", "C12", "C03", "C04"],
    pre="proof { lemma_pdu_headers(); reveal_with_fuel(ser, 8); reveal_with_fuel(ser_seq_from, 8); }", **MCS_WRITE)
-MF("read", impl=r"Client<S>", props=["C05", "C06", "C10"],
+# refusal justifications (T.125 DomainMCSPDU choice = first byte of the X.224 payload >> 2; frame = TPKT(4) + X.224 data header(3) + MCS PDU):
+# Disconnect only for choice 8 (DisconnectProviderUltimatum), "invalid opcode" only for a choice other than 26 (SendDataIndication);
+# the channel looked up (and refused as unknown when absent from the joined channels) is the channelId on the wire
+MF("read", impl=r"Client<S>", props=["C05", "C06", "C10", "C03", "C12"],
+   claims=[(r"return Err\(.*RdpErrorKind::Disconnect", 1, "proof { assert(old(self).rest().len() > 7 && old(self).rest()[0] == 3 && old(self).rest()[7] >> 2 == 8); }", "before", "C03,C12", "disconnect-reported-only-for-an-ultimatum"),
+           (r"return Err\(.*MCS: Invalid opcode", 1, "proof { assert(old(self).rest().len() > 7 && old(self).rest()[0] == 3 && old(self).rest()[7] >> 2 != 26 && old(self).rest()[7] >> 2 != 8); }", "before", "C03,C12", "opcode-refused-only-when-not-send-data-indication"),
+           (r"let channel = ", 1, "proof { assert(old(self).rest().len() >= 12 && channel_id == u16_be(old(self).rest()[10], old(self).rest()[11])); }", "before", "C03,C12", "channel-looked-up-is-the-one-on-the-wire")],
    body_sub=[(r"self\.channel_ids\.iter\(\)\.find\(\|(\w+)\|\s*(?:\*\1\.1\s*==\s*channel_id|channel_id\s*==\s*\*\1\.1)\)", "hashmap_find_by_value(&self.channel_ids, channel_id)")], **MCS_READ)
 MF("shutdown", impl=r"Client<S>", props=["C03"], fuel=8, pre="proof { lemma_pdu_headers(); }",
    ensures=[("C03", "disconnect-provider-ultimatum", "r is Ok ==> final(self).written() =~= old(self).written() + frame(disconnect_ultimatum_bytes())"),
